@@ -1061,3 +1061,43 @@ Section Bare.
     rewrite E. cbn [after]. f_equal; try reflexivity; unfold nnat; lia.
   Qed.
 End Bare.
+
+(* ---- the expires value through the general parameter part (C10): the last parameter named expires decides ----------------------------------- *)
+Definition t_is_exp (t : pit) : bool :=
+  match t_val t with Some _ => negb (eqb_nocase (t_name t) str_tag) && eqb_nocase (t_name t) str_expires | None => false end.
+Lemma apply_param_exp name val s : eqb_nocase name str_tag = false -> eqb_nocase name str_expires = true ->
+  fb_expires (apply_param name val s) = expires_of val /\ fb_hasexp (apply_param name val s) = true.
+Proof. intros H1 H2. unfold apply_param, expires_of. rewrite H1, H2. destruct (pUInt64Val val) as [e x]. destruct s; cbn. auto. Qed.
+Lemma apply_param_noexp name val s : eqb_nocase name str_tag = true \/ eqb_nocase name str_expires = false -> fb_expires (apply_param name val s) = fb_expires s.
+Proof.
+  intros H. unfold apply_param. destruct (eqb_nocase name str_tag) eqn:E1; [destruct s; reflexivity|]. destruct H as [H|H]; [discriminate|]. rewrite H.
+  destruct (eqb_nocase name str_q).
+  - unfold set_q. cbv zeta. destruct (_ <=? 4)%nat; [|destruct s; reflexivity].
+    destruct (pUInt64Val _) as [u e1]. destruct (match e1 with EOk => _ | _ => _ end) as [dd e2].
+    destruct e2; try (destruct s; reflexivity). destruct (_ || _); destruct s; reflexivity.
+  - destruct (eqb_nocase name str_lr); destruct s; reflexivity.
+Qed.
+Lemma t_apply_expires p i t b : fb_expires (t_apply p i t b) = if t_is_exp t then match t_val t with Some (_, _, V) => expires_of V | None => 0 end else fb_expires b.
+Proof.
+  unfold t_apply, t_is_exp. destruct (t_val t) as [[[g2 g3] V]|].
+  - match goal with |- fb_expires (pclr ?X) = _ => transitivity (fb_expires X); [destruct X; reflexivity|] end.
+    destruct (eqb_nocase (t_name t) str_tag) eqn:E1; cbn [negb andb].
+    + rewrite apply_param_noexp by (left; exact E1). reflexivity.
+    + destruct (eqb_nocase (t_name t) str_expires) eqn:E2.
+      * exact (proj1 (apply_param_exp _ V _ E1 E2)).
+      * rewrite apply_param_noexp by (right; exact E2). reflexivity.
+  - unfold apply_flag. destruct (eqb_nocase _ _); reflexivity.
+Qed.
+(* no parameter named expires: the value stays what the head left (0); the last parameter is expires=V: its saturated decimal value *)
+Theorem gen_expires_none h p L t i b d : Forall (fun t => t_is_exp t = false) (L ++ [t]) ->
+  fb_expires (finW h d (t_apply p (i + nnat (length (its_bytes L))) t (its_state p i L b))) = fb_expires b.
+Proof.
+  intros H. cbn [finW fb_expires]. revert i b H. induction L as [|t1 L IH]; intros i b H.
+  - cbn [its_bytes flat_map length its_state app] in *. rewrite t_apply_expires. rewrite (Forall_inv H). reflexivity.
+  - cbn [its_bytes flat_map its_state app] in *. fold (its_bytes L). rewrite app_length.
+    replace (i + nnat (length (t_bytes t1) + length (its_bytes L))) with (i + nnat (length (t_bytes t1)) + nnat (length (its_bytes L))) by (unfold nnat; lia).
+    rewrite (IH _ _ (Forall_inv_tail H)). rewrite t_apply_expires, (Forall_inv H). reflexivity.
+Qed.
+Theorem gen_expires_last h p L t i b d g2 g3 V : t_val t = Some (g2, g3, V) -> t_is_exp t = true ->
+  fb_expires (finW h d (t_apply p (i + nnat (length (its_bytes L))) t (its_state p i L b))) = expires_of V.
+Proof. intros Hv He. cbn [finW fb_expires]. rewrite t_apply_expires, He, Hv. reflexivity. Qed.
